@@ -45,6 +45,9 @@ CLAIMS = {
  "C04": (MECH + "the scheduling queue never hands out a task that depends on a still-scheduled task, each scheduled task exactly once, also after a "
          "require-now removal; a task is scheduled by a resource change iff its own checker reports inconsistency or fails; a requirer is "
          "consistent bottom-up iff its checker accepts the new output (early cut-off).", "§4 C04"),
+ "C16": ("Partly, graph half only: DAG::reorder_nodes - the only place in the anchored code that iterates an unordered container - gives the same add_edge "
+         "result and the same topological order whichever of six iteration orders the two HashSets are yielded in (all orders for sets of <= 3 elements), "
+         "for every reordering add_edge from 4 (quick) / 8 (thorough) pre-states. Equality of whole event streams across replays is outside the claim.", "§4 C16"),
  "C14": ("Partly, unit level: for the map resource, stamp/stamp_reader/stamp_writer agree with the stored value or absence and MapEqualsChecker is "
          "consistent exactly when the current value or absence equals the stamped one, after writes through a writer and directly through the "
          "resource state. Multi-key-type isolation is outside the claim (harness exceeds the memory cap).", "§4 C14"),
@@ -52,7 +55,6 @@ CLAIMS = {
 NA = {
  "C03": "needs a whole bottom-up build; a task object taken out of the store (trait object inside an enum variant) is not constant-folded by Kani/CBMC, so executing it bottom-up explores every task program and merges (measured, DESIGN §2, §6)",
  "C13": "file checkers are thin layers over filesystem syscalls, SystemTime and SHA-256 over file content: not encodable (FFI) / textbook weak target (DESIGN §6)",
- "C16": "the only hash-order-dependent code (DAG::reorder_nodes) was encoded with a solver-chosen iteration order, but the harness does not finish within the cap (20 min); event-stream equality needs whole sessions (DESIGN §6)",
  "C19": "needs execution to continue after a panic; Kani models panic as abort and has no catch_unwind (DESIGN §6)",
  "C20": "needs histories in which tasks change roles; the two role-inversion patterns that the property text itself calls recorded findings are not enumerated there, so a check could not tell a finding from a violation (DESIGN §6)",
 }
